@@ -1,6 +1,11 @@
 package storeobs
 
 import (
+	"bytes"
+	"fmt"
+	"iter"
+	"os"
+
 	"go.sia.tech/coreutils/chain"
 )
 
@@ -37,6 +42,60 @@ type RecDB struct {
 	Images  []*Image
 	names   map[string]bool
 	StepNow func() int // the step a commit belongs to
+	// aliasing monitor: every byte slice the database handed out (Get, Iter) since the last
+	// check, with a copy of what it held then. The store may only change the database through
+	// Put and Delete; a handed-out slice that changes was edited in place, i.e. data of the
+	// database (for a map-backed DB: the committed image itself) was modified outside a commit.
+	handed   []handedOut
+	AliasErr string // the first violation seen
+}
+
+type handedOut struct {
+	bucket string
+	key    []byte
+	slice  []byte // the very slice the database returned
+	copy   []byte
+}
+
+func (r *RecDB) hand(bucket string, key, val []byte) {
+	if len(val) == 0 {
+		return
+	}
+	r.handed = append(r.handed, handedOut{bucket, append([]byte(nil), key...), val, append([]byte(nil), val...)})
+}
+
+// CheckHandedOut verifies that no slice handed out since the last check was modified in place.
+func (r *RecDB) CheckHandedOut() {
+	for _, h := range r.handed {
+		if !bytes.Equal(h.slice, h.copy) && r.AliasErr == "" && os.Getenv("VERIF_C03_NOALIAS") == "" { // (switch: self-test of the live crash points)
+			r.AliasErr = fmt.Sprintf("the bytes the database returned for key %x of bucket %s were modified in place (not through Put/Delete): %x became %x", h.key, h.bucket, h.copy, h.slice)
+		}
+	}
+	r.handed = r.handed[:0]
+}
+
+type recBucket struct {
+	inner chain.DBBucket
+	r     *RecDB
+	name  string
+}
+
+func (b recBucket) Get(key []byte) []byte {
+	v := b.inner.Get(key)
+	b.r.hand(b.name, key, v)
+	return v
+}
+func (b recBucket) Put(key, value []byte) error { return b.inner.Put(key, value) }
+func (b recBucket) Delete(key []byte) error     { return b.inner.Delete(key) }
+func (b recBucket) Iter() iter.Seq2[[]byte, []byte] {
+	return func(yield func([]byte, []byte) bool) {
+		for k, v := range b.inner.Iter() {
+			b.r.hand(b.name, k, v)
+			if !yield(k, v) {
+				return
+			}
+		}
+	}
 }
 
 // NewRecDB wraps inner.
@@ -50,20 +109,22 @@ func (r *RecDB) Bucket(name []byte) chain.DBBucket {
 	if b == nil {
 		return nil // a typed nil would not compare equal to nil in DBStore
 	}
-	return b
+	return recBucket{b, r, string(name)}
 }
 
 // CreateBucket implements chain.DB.
 func (r *RecDB) CreateBucket(name []byte) (chain.DBBucket, error) {
 	b, err := r.Inner.CreateBucket(name)
-	if err == nil {
-		r.names[string(name)] = true
+	if err != nil {
+		return nil, err
 	}
-	return b, err
+	r.names[string(name)] = true
+	return recBucket{b, r, string(name)}, nil
 }
 
 // Flush implements chain.DB: commit, then snapshot the committed image.
 func (r *RecDB) Flush() error {
+	r.CheckHandedOut()
 	if err := r.Inner.Flush(); err != nil {
 		return err
 	}
@@ -87,4 +148,42 @@ func (r *RecDB) Flush() error {
 }
 
 // Cancel implements chain.DB.
-func (r *RecDB) Cancel() { r.Inner.Cancel() }
+func (r *RecDB) Cancel() {
+	r.CheckHandedOut()
+	r.Inner.Cancel()
+}
+
+// Committed reads what the database holds (call it when nothing is pending).
+func (r *RecDB) Committed() map[string]map[string][]byte {
+	out := map[string]map[string][]byte{}
+	for name := range r.names {
+		kv := map[string][]byte{}
+		if b := r.Inner.Bucket([]byte(name)); b != nil {
+			for k, v := range b.Iter() {
+				kv[string(k)] = append([]byte(nil), v...)
+			}
+		}
+		out[name] = kv
+	}
+	r.Inner.Cancel()
+	return out
+}
+
+// DiffImage compares committed contents with an image; "" if equal.
+func DiffImage(have map[string]map[string][]byte, im *Image) string {
+	for name, kv := range im.Data {
+		for k, v := range kv {
+			if w, ok := have[name][k]; !ok {
+				return fmt.Sprintf("bucket %s: key %x of the last commit is gone", name, k)
+			} else if !bytes.Equal(v, w) {
+				return fmt.Sprintf("bucket %s, key %x: the last commit stored %x, the database now holds %x", name, k, v, w)
+			}
+		}
+		for k := range have[name] {
+			if _, ok := kv[k]; !ok {
+				return fmt.Sprintf("bucket %s: key %x was not in the last commit", name, k)
+			}
+		}
+	}
+	return ""
+}
